@@ -17,10 +17,28 @@ fn spec() -> Arc<BenchSpec> {
 /// at absolute time `at` (and reads the time); afterwards the main thread
 /// steps until nothing is pending. Oracle: accepted => fires exactly once at
 /// exactly `at`; rejected => never fires; the simulation time never decreases.
+/// Which scheduling entry point the foreign thread uses.
+#[derive(Clone, Copy, Debug)]
+pub enum Variant {
+    Event,
+    Keyed,
+    Periodic,
+    KeyedPeriodic,
+    SourceAction,
+}
+
 fn race_body(at: i64, pre_pending: Option<i64>, until: i64, relative: bool) {
+    race_body_v(at, pre_pending, until, relative, Variant::Event)
+}
+
+fn race_body_v(at: i64, pre_pending: Option<i64>, until: i64, relative: bool, variant: Variant) {
     let w = W::new(false);
     let sp = spec();
     let mut b = world::build(&sp, &w);
+    let mut src: nexosim::ports::EventSource<Msg> = nexosim::ports::EventSource::new();
+    src.connect(Node::on_event, &b.addrs[0]);
+    // A period far beyond the horizon: only the first occurrence is observed.
+    let period = Duration::from_secs(1000);
     let simu = b.simu.as_mut().expect("init failed");
     let sched = b.sched.clone().unwrap();
     if let Some(p) = pre_pending {
@@ -31,11 +49,19 @@ fn race_body(at: i64, pre_pending: Option<i64>, until: i64, relative: bool) {
     let sched2 = sched.clone();
     let h = shuttle::thread::spawn(move || {
         let t_before = off(sched2.time());
-        let res = if relative {
-            sched2.schedule_event(Duration::from_nanos(at as u64), Node::on_event, Msg::new(&w2, 901, 1, 0), &addr)
-        } else {
-            sched2.schedule_event(mt(at), Node::on_event, Msg::new(&w2, 901, 1, 0), &addr)
-        };
+        let msg = Msg::new(&w2, 901, 1, 0);
+        macro_rules! go {
+            ($dl:expr) => {
+                match variant {
+                    Variant::Event => sched2.schedule_event($dl, Node::on_event, msg, &addr),
+                    Variant::Keyed => sched2.schedule_keyed_event($dl, Node::on_event, msg, &addr).map(|_| ()),
+                    Variant::Periodic => sched2.schedule_periodic_event($dl, period, Node::on_event, msg, &addr),
+                    Variant::KeyedPeriodic => sched2.schedule_keyed_periodic_event($dl, period, Node::on_event, msg, &addr).map(|_| ()),
+                    Variant::SourceAction => sched2.schedule($dl, src.event(msg)),
+                }
+            };
+        }
+        let res = if relative { go!(Duration::from_nanos(at as u64)) } else { go!(mt(at)) };
         let t_after = off(sched2.time());
         assert!(t_after >= t_before, "[time_backwards] a foreign reader saw the time go from {} to {}", t_before, t_after);
         (t_before, res.is_ok(), t_after)
@@ -69,7 +95,16 @@ fn race_body(at: i64, pre_pending: Option<i64>, until: i64, relative: bool) {
     }
     if accepted {
         let deadline = if relative { None } else { Some(at) };
-        assert!(fired.len() == 1, "[sched_missed] accepted request (deadline {:?}, scheduled while time was in [{}, {}]) fired {:?}", deadline, t_before, t_after, fired);
+        let periodic = matches!(variant, Variant::Periodic | Variant::KeyedPeriodic);
+        if periodic {
+            // Later occurrences (one period apart) may have been reached by the draining steps.
+            assert!(!fired.is_empty(), "[sched_missed] accepted periodic request (deadline {:?}) never fired", deadline);
+            for (k, f) in fired.iter().enumerate() {
+                assert!(*f == fired[0] + k as i64 * period.as_nanos() as i64, "[sched_wrong_time] periodic occurrences at {:?}", fired);
+            }
+        } else {
+            assert!(fired.len() == 1, "[sched_missed] accepted request (deadline {:?}, scheduled while time was in [{}, {}]) fired {:?}", deadline, t_before, t_after, fired);
+        }
         if let Some(d) = deadline {
             assert!(fired[0] == d, "[sched_wrong_time] request accepted for t={} fired at t={}", d, fired[0]);
             assert!(t_before < d, "[sched_validation] request for t={} accepted although the time was already {}", d, t_before);
@@ -87,6 +122,15 @@ fn race_body(at: i64, pre_pending: Option<i64>, until: i64, relative: bool) {
 
 pub fn c08() -> Vec<Item> {
     let mut v = vec![];
+    for (vname, variant) in [
+        ("keyed", Variant::Keyed),
+        ("periodic", Variant::Periodic),
+        ("keyed_periodic", Variant::KeyedPeriodic),
+        ("source_action", Variant::SourceAction),
+    ] {
+        v.push(Item::new(&format!("race/{}/abs2/until3", vname), 50_000, 2, 3, move || race_body_v(2, None, 3, false, variant)).caps(400_000, 50_000_000));
+        v.push(Item::new(&format!("race/{}/abs2/pending1/until3", vname), 50_000, 2, 3, move || race_body_v(2, Some(1), 3, false, variant)).caps(400_000, 50_000_000));
+    }
     for (name, at, pre, until, rel) in [
         ("race/abs2/until3", 2i64, None, 3i64, false),
         ("race/abs3/until3", 3, None, 3, false),
